@@ -14,7 +14,7 @@ from mirparse import Unsupported
 
 class Obl:
     def __init__(self, name, locate, inputs, args, view, rust, spec, covers=None, wrong=None,
-                 vectors=(), notes="", assume=None, unroll=0, fixed=None, key=None, stubs=None, ghost=(), findings=None, taps=None, derive=None, init_locals=None, view_state=None, runner=None):
+                 vectors=(), notes="", assume=None, unroll=0, fixed=None, key=None, stubs=None, ghost=(), findings=None, taps=None, derive=None, init_locals=None, view_state=None, runner=None, bounds=None):
         self.name = name
         self.key = key or re.sub(r"[^A-Za-z0-9]+", "_", name).strip("_")   # native replay arm (may be shared)
         self.fixed = fixed or {}  # inputs that are concrete in this obligation: {name: value}
@@ -36,6 +36,7 @@ class Obl:
         #                            computation that the specification refers to (each is tied to its definition by a clause)
         self.init_locals = init_locals   # {name: Value} -> {"$x": Value}: pointees of &mut arguments (args use RefMut(0, "$x"))
         self.view_state = view_state     # (ret Value, {"$x": final Value}) -> {key: term}; replaces `view` when given
+        self.bounds = bounds or {}       # {input: (lo, hi)}: assumed sub-range of an input (asserted, and known to the encoder's interval folding)
         self.runner = runner             # (ex, item, subst, vals) -> Value: composite of several runs of the real function
         self.derive = derive       # inputs -> {key: value}: the same internal values by their mathematical definition (native replay)
         self.stubs = stubs or []  # [(regex on the normalised callee, fn(ex, match, args, input values) -> Value)]
